@@ -166,6 +166,33 @@ func gen(t *rapid.T) Case {
 		return op
 	}), 4, 36).Draw(t, "ops")
 	c.Ops = append(c.Ops, rest...)
+	// Steady-use epilogue (2 of 3 cases): whatever state the history left, one file is read at a
+	// cadence below the resolution for a while, optionally left alone for a moment, and a
+	// cleanup pass in one of the exactly judged modes follows, its TTI placed around that
+	// file's idle time or drawn from the absolute menu. Random histories are short, so
+	// without this a burst is rarely followed by a pass that judges the file.
+	if rapid.IntRange(0, 2).Draw(t, "steady") > 0 {
+		key := rapid.IntRange(0, nKeys-1).Draw(t, "skey")
+		c.Ops = append(c.Ops, Op{Kind: "hot", Key: key,
+			Dt: rapid.SampledFrom([]int{60, 150, 240, 299, 299}).Draw(t, "sgap"),
+			N:  rapid.SampledFrom([]int{2, 3, 3, 4, 5, 6, 8, 12}).Draw(t, "sn")})
+		if adv := rapid.SampledFrom([]int{0, 0, 0, 1, 60, 299, 300, 600}).Draw(t, "sadv"); adv > 0 {
+			c.Ops = append(c.Ops, Op{Kind: "advance", Dt: adv})
+		}
+		p := Op{Kind: "pass", Mode: rapid.SampledFrom([]string{"normal", "normal", "normal", "aggr-ttl", "real-calm"}).Draw(t, "smode")}
+		p.TTI = TimeSpec{Abs: rapid.SampledFrom([]int{600, 600, 3600}).Draw(t, "sabs")}
+		if rapid.IntRange(0, 2).Draw(t, "srel") > 0 {
+			p.TTI.Rel, p.TTI.Key = "idle", key
+			p.TTI.Delta = rapid.SampledFrom([]int{-1, 0, 0, 1}).Draw(t, "sdelta")
+		}
+		p.TTL = genSpec(t, "sttl")
+		p.NoTTL = p.Mode == "normal" && rapid.IntRange(0, 2).Draw(t, "snottl") > 0
+		if p.Mode == "aggr-ttl" {
+			p.Total = rapid.IntRange(100, 1000).Draw(t, "stotal")
+			p.Extra = rapid.IntRange(0, 400).Draw(t, "sextra")
+		}
+		c.Ops = append(c.Ops, p)
+	}
 	return c
 }
 
@@ -574,8 +601,12 @@ func run(c Case) pbt.Verdict {
 						}
 					}
 				}
-				if msg := resync(when, -1); msg != "" {
-					return pbt.Fail("%s", msg)
+				// the directory is compared after the first read (which may load the entry and
+				// evict another) and after the last one
+				if j == 0 || j == n-1 {
+					if msg := resync(when, -1); msg != "" {
+						return pbt.Fail("%s", msg)
+					}
 				}
 				if !f.exists {
 					break
@@ -999,7 +1030,7 @@ func TestMain(m *testing.M) {
 func TestProp(t *testing.T) {
 	pbt.Main(t, pbt.Spec{
 		ID: "C10",
-		Rule: "rapid draws an LRU file-map capacity (2,3,4 or 16), a setup prefix (2-4 creates, usually one persist) and 4-36 further ops over 5 content-addressed file names on base.NewCASFileStoreWithLRUMap with a mock clock: create (only absent keys; mtime set to the clock), read (now or after a drawn delay), hot (2-20 reads of one file with a fixed gap of 1-299 s, i.e. below the last-access resolution, before each: a file in steady use, the burst usually spanning several resolutions), stat, set/clear the persist flag (SetFileMetadata / DeleteFileMetadata), clock advances from a menu around the 5-minute resolution, 45-minute and TTI/TTL boundaries, delete, reopen, and cleanup passes (normal cleanup(); ttlBasedCleanup with aggressive TTL, lower threshold and injected disk usage; customPolicyBasedCleanup with cachedInAgentPolicy and injected disk usage; cleanup() in aggressive / calm / policy mode decided by the real disk utilisation) whose TTI/TTL are absolute or placed -1/0/+1 s around the idle time / age of a chosen file. " +
+		Rule: "rapid draws an LRU file-map capacity (2,3,4 or 16), a setup prefix (2-4 creates, usually one persist) and 4-36 further ops over 5 content-addressed file names on base.NewCASFileStoreWithLRUMap with a mock clock: create (only absent keys; mtime set to the clock), read (now or after a drawn delay), hot (2-20 reads of one file with a fixed gap of 1-299 s, i.e. below the last-access resolution, before each: a file in steady use, the burst usually spanning several resolutions; 2 of 3 cases end with such a burst, an optional short advance and an exactly judged pass whose TTI is absolute or placed around that file's idle time), stat, set/clear the persist flag (SetFileMetadata / DeleteFileMetadata), clock advances from a menu around the 5-minute resolution, 45-minute and TTI/TTL boundaries, delete, reopen, and cleanup passes (normal cleanup(); ttlBasedCleanup with aggressive TTL, lower threshold and injected disk usage; customPolicyBasedCleanup with cachedInAgentPolicy and injected disk usage; cleanup() in aggressive / calm / policy mode decided by the real disk utilisation) whose TTI/TTL are absolute or placed -1/0/+1 s around the idle time / age of a chosen file. " +
 			"A reference model {exists, mtime, last access (set at creation, refreshed by an access at least 5 min after the stored value; flag writes may or may not count), persist flag} is compared with the directory after every op: (1) a persisted file keeps data, size, persist and last-access sidecars whatever was attempted (delete request must report ErrFilePersisted; LRU eviction; every pass) and reads back at the end; (2) after a normal / aggressive-without-lower-threshold pass every unprotected file with now-lastAccess > TTI or (TTL>0 and now-mtime > TTL) is gone and, when no LRU eviction can happen during the scan (files <= capacity), every other file is still there; with a lower threshold only the second half is required; (3) the usage-driven pass visits files in non-decreasing (tier, last access) order where tier 0: |access-mtime|>45 min, 1: >1 s, 2: otherwise, never skips a file that precedes a visited one, does not stop while used-deleted is above the lower threshold and does not go on once total-lower bytes are deleted and usage is below the threshold. " +
 			"evaluations = judged cleanup passes; non-trivial = a persisted file survived a delete request, an LRU eviction from the map or a pass in which it met the expiry rule, and some pass deleted a file; distinct by case hash",
 		Assumptions: []string{
